@@ -54,6 +54,9 @@ func loadEngine(repo, verif string) (*Engine, error) {
 		Env: append(os.Environ(), "GOFLAGS=-mod=mod", "GOPROXY=off", "GOSUMDB=off", "GOTOOLCHAIN=local"),
 	}
 	pats := []string{"./diam", "./diam/datatype", "./diam/dict", "./diam/avp", "./diam/sm", "./diam/sm/smparser", "./diam/sm/smpeer"}
+	if x := os.Getenv("VERIF_EXTRA_PKGS"); x != "" {
+		pats = append(pats, strings.Fields(x)...)
+	}
 	pkgs, err := packages.Load(cfg, pats...)
 	if err != nil {
 		return nil, err
@@ -128,6 +131,12 @@ func (e *Engine) loadSpecs() error {
 	for _, f := range files {
 		if err := e.specs.ParseSpecFile(f, "?"); err != nil {
 			return err
+		}
+	}
+	e.replayOracles = map[string]string{}
+	for _, c := range e.specs.Contracts {
+		for lbl, ex := range c.Replay {
+			e.replayOracles[c.Name+"#post."+lbl] = ex
 		}
 	}
 	return nil
